@@ -9,7 +9,7 @@ from .eval import Unsupported, PY_EXC
 class Contract:
     def __init__(self, qual, params="", returns=None, requires=(), ensures=(), raises=None, may_raise=(), modifies=(),
                  loops=None, effects=(), trusted=None, pure=False, allocates=None, ensures_raise=None, ghost=None,
-                 exact_raises=True, props=(), yields=None, logs=(), defines=(), inline_ok=False, fn_override=None, closure_env=None, notes=""):
+                 exact_raises=True, props=(), yields=None, logs=(), defines=(), may_raise_if=None, inline_ok=False, fn_override=None, closure_env=None, notes=""):
         self.qual = qual
         self.params = parse_params(params)
         self.returns = returns
@@ -27,6 +27,7 @@ class Contract:
         self.exact_raises = exact_raises
         self.props = list(props)
         self.logs = list(logs)
+        self.may_raise_if = may_raise_if      # condition (at entry) under which the may_raise exceptions can occur at all
         self.defines = list(defines)     # definitional clauses: assumed at call sites, not proof obligations (listed as trusted)
         self.yields = yields                        # element type of a generator's yielded values
         self.fn_override = fn_override
@@ -296,6 +297,12 @@ class CallMixin:
 
     def dispatch_method(self, recv, cls, name, args, kwargs, st, node):
         """closed-world dispatch: group the subclasses of the static class by the function `name` resolves to"""
+        a0 = self.repo.attr(cls, name)
+        if a0 is not None and a0[0]["kind"] == "staticmethod":
+            key = self.method_contract_key(cls, name, a0[0])
+            return self.apply_contract(self.need_contract(key, node), list(args), kwargs, st, node)
+        if a0 is not None and a0[0]["kind"] == "classmethod":
+            return self.call_classmethod(recv.cls, name, args, kwargs, st, node)
         impls = {}
         for k in self.repo.subclasses(cls):
             a = self.repo.attr(k, name)
@@ -530,9 +537,14 @@ class CallMixin:
                 self.raise_exc(r, exc)
                 r.trail.append((f"{c.qual} raises {exc}", True))
                 out.append((r, None))
+        mr_cond = self.spec_eval_in(c.may_raise_if, st, env, None) if c.may_raise_if else None
         for exc in c.may_raise:
+            if mr_cond is not None and not feasible(st.pc + [mr_cond]):
+                continue
             r = st.fork()
             r.pc.append(fresh("mayraise." + exc, Bool))
+            if mr_cond is not None:
+                r.pc.append(mr_cond)
             self.havoc_modifies(c, r, env)
             for cl in list(c.ensures_raise.get(exc, [])) + list(c.ensures_raise.get("*", [])):
                 r.assume(self.spec_eval_in(cl, r, env, pre))
